@@ -155,7 +155,7 @@ def inverse_pairs(repo: Repo, rep, P: str, rule: str):
         if te is None or fe is None:
             rep.inconclusive(f"{P}.{rule}", con_t, "", "conversion is not a single return expression", f"{rel}:{to_fn.lineno}")
             continue
-        th_t, th_f = _thresholds(repo, to_owner, te), _thresholds(repo, fr_owner, fe)
+        th_t, th_f = _thresholds(repo, ci, te), _thresholds(repo, ci, fe)
         if th_t is None or th_f is None:
             rep.inconclusive(f"{P}.{rule}", con_t, f"[{kind}] {norm(te)} / {norm(fe)}", "branch condition is not a comparison of self.min with a constant",
                              f"{rel}:{to_fn.lineno}")
@@ -166,14 +166,14 @@ def inverse_pairs(repo: Repo, rep, P: str, rule: str):
         seen_cases = set()
         for m0 in points:
             sign = (m0 > 0) - (m0 < 0)
-            key = (norm(_branch_for_case(repo, to_owner, te, m0) or te), norm(_branch_for_case(repo, fr_owner, fe, m0) or fe), sign)
+            key = (norm(_branch_for_case(repo, ci, te, m0) or te), norm(_branch_for_case(repo, ci, fe, m0) or fe), sign)
             if key not in seen_cases:
                 seen_cases.add(key)
                 label = {-1: "min < 0", 0: "min = 0", 1: "min > 0"}[sign] + (f" (e.g. min = {m0})" if len(points) > 3 else "")
                 cases.append((label, sign, m0))
         for label, sign, m0 in cases:
             n += 1
-            tb, fb = _branch_for_case(repo, to_owner, te, m0), _branch_for_case(repo, fr_owner, fe, m0)
+            tb, fb = _branch_for_case(repo, ci, te, m0), _branch_for_case(repo, ci, fe, m0)
             if tb is None or fb is None:
                 rep.inconclusive(f"{P}.{rule}", con_t, f"[{kind}, {label}] {norm(te)} / {norm(fe)}", "branch condition not a sign test of self.min",
                                  f"{rel}:{to_fn.lineno}")
@@ -449,7 +449,7 @@ def raw_guards(repo: Repo, rep, P: str, rule: str):
             te = _single_return(to_fn)
             tp = [a.arg for a in to_fn.args.args if a.arg != "self"][0]
             for label, sign, vertex, rays in REGIONS:
-                tb = _branch_for_case(repo, to_owner, te, vertex[0]) if te is not None else None
+                tb = _branch_for_case(repo, ci, te, vertex[0]) if te is not None else None
                 if tb is None:
                     rep.inconclusive(f"{P}.{rule}", gcon, f"[{kind}, {label}]", "to_raw_value not resolvable for this case", f"{ci.file.rel}:{g.lineno}")
                     continue
